@@ -25,6 +25,7 @@ type Unit struct {
 var units []*Unit
 
 func register(prop, name string, thorough bool, run func(c *Ctx)) {
+	name = strings.ReplaceAll(name, " ", "_") // unit names are whitespace-separated fields of the listing
 	units = append(units, &Unit{Prop: prop, Name: name, Thorough: thorough, Run: run})
 }
 
